@@ -341,7 +341,8 @@ fn check_filters_on_list(env: &Environment, idx: &[usize], alpha: &[Named], acc:
                 for (ri, r) in runs.iter().enumerate() {
                     let real: Vec<Value> = r.iter().filter(|x| !identical(x, &fill)).cloned().collect();
                     let is_last = ri + 1 == runs.len();
-                    let want_real = if is_last { input.len() - n * (expect_runs - 1) } else { n };
+                    // (a wrong number of runs is a failure already; no arithmetic on it)
+                    let want_real = if !ok { usize::MAX } else if is_last { input.len() - n * (expect_runs - 1) } else { n };
                     if real.len() != want_real {
                         ok = false;
                     }
